@@ -14,7 +14,7 @@ import re
 
 from ..interp import Interp, Hooks, Budget
 from ..state import State, Obj, IntV, PtrV, NULL, MAXLEN
-from ..terms import Lin, ZERO
+from ..terms import Lin, ZERO, base_atoms, eval_lin
 from . import own
 from .c08 import string_scene, SliceHooks
 from .common import short, fn_loc, slot_subst, subst, robust
@@ -224,6 +224,44 @@ def digit_loop(run, m, F, E):
                 if len(digs) != 1:
                     und.append('an iteration stores %d units into the buffer, expected one digit' % len(digs))
                 else:
+                    # the character stored: '0'+d for d < 10, else 'a'/'A' + (d - 10), with d = value % radix - decided by finite case
+                    # analysis over the digit value (0..35) and the case flag on this path
+                    dv = digs[0][4]
+                    def top_atoms(l, acc):
+                        # atoms of a term, looking through width adjustments (mod / smod) but not into arithmetic
+                        for a_, k_ in l.t:
+                            if isinstance(a_, tuple) and a_[0] in ('mod', 'smod') and isinstance(a_[1], Lin):
+                                top_atoms(a_[1], acc)
+                            else:
+                                acc.append(a_)
+                        return acc
+                    tops = top_atoms(dv.lin, []) if isinstance(dv, IntV) else []
+                    rem = [a for a in tops if isinstance(a, tuple) and a[0] == 'urem']
+                    if isinstance(dv, IntV) and len(rem) == 1 and rem[0][2] == I.as_u(s2, radix):
+                        others = [a for a in tops if a != rem[0]]
+                        ua = up.lin.single_atom()[0] if up.lin.single_atom() else None
+                        if all(a == ua for a in others):
+                            lo_d, hi_d = s2.arange(rem[0])
+                            ulo, uhi = s2.arange(ua) if ua is not None else (0, 0)
+                            bad_d = None
+                            for d_ in range(max(lo_d, 0), min(hi_d, 35) + 1):
+                                for u_ in range(ulo, uhi + 1):
+                                    env_ = {rem[0]: d_}
+                                    if ua is not None:
+                                        env_[ua] = u_
+                                    try:
+                                        got_c = eval_lin(dv.lin, env_) & 0xFF
+                                    except KeyError:
+                                        got_c = None
+                                    exp_c = 0x30 + d_ if d_ < 10 else (0x41 if u_ else 0x61) + d_ - 10
+                                    if got_c is not None and got_c != exp_c and bad_d is None:
+                                        bad_d = (d_, u_, got_c, exp_c)
+                            if bad_d is not None:
+                                problems.append('digit value %d (%s case) is stored as %r, expected %r' % (bad_d[0], 'upper' if bad_d[1] else 'lower', chr(bad_d[2]), chr(bad_d[3])))
+                        else:
+                            und.append('the stored digit character depends on more than the digit value and the case flag')
+                    elif isinstance(dv, IntV):
+                        und.append('the stored digit character is not a function of value % radix that the rule recognises')
                     q = digs[0][2]
                     qn = subst(q, slot_subst(b, e2))
                     if qn is None:
